@@ -1,3 +1,221 @@
-(* C19 part B - property theorems (filled in as the proofs are finished). *)
-From Coq Require Import List ZArith Bool Arith Lia.
-From SV Require Import C19.B_Common.
+(* C19 part B - property theorems: differential_evolution, particle_swarm, nelder_mead, bayesian_opt report the
+   best point they evaluated (objective in the user's sign, evaluations = objective calls, max f mirrors min -f,
+   clipped points in bounds); powell / bfgs / lbfgs report the objective of exactly the point they return.
+
+   Reading guide.  `us` is the list of the user's objective values f(x) in call order; a point's identity is the
+   index of the call that evaluated it (the harness matches it by value against the logged copy).  A run of a
+   machine returns `Some result` (None = the modelled call raises, or the recorded stream is too short); every
+   theorem holds for EVERY stream `us` and every oracle (conv / cb / lens / bt: decisions that depend on float
+   arithmetic or on the user's callback), i.e. for every objective function, seed and schedule. *)
+From Coq Require Import List ZArith QArith Bool Arith Lia.
+From SV Require Import C19.B_Common C19.B_DE C19.B_PSO C19.B_NM C19.B_Bayes C19.B_Flow C19.B_Bounds C19.B_Spec
+     C19.B_ProofsCommon C19.B_ProofsBounds C19.B_Theorems.
+Import ListNotations.
+Open Scope Z_scope.
+
+(* ------------------------------------------------------------------ differential_evolution *)
+Theorem best_is_min_de : forall minimize population_size max_iter conv cb interval us r,
+  de_run minimize population_size max_iter conv cb interval us = Some r ->
+  forall k v, (k < r_evals r)%nat -> nth_error us k = Some v -> if minimize then r_obj r <= v else v <= r_obj r.
+Proof. exact de_best_is_min. Qed.
+Print Assumptions best_is_min_de.
+
+Theorem best_is_f_de : forall minimize population_size max_iter conv cb interval us r,
+  de_run minimize population_size max_iter conv cb interval us = Some r ->
+  nth_error us (r_sol r) = Some (r_obj r).
+Proof. exact de_best_is_f. Qed.
+Print Assumptions best_is_f_de.
+
+Theorem evals_count_de : forall minimize population_size max_iter conv cb interval us r st,
+  de_run_st minimize population_size max_iter conv cb interval us = Some (r, st) ->
+  r_evals r = evals st /\ (r_evals r + length (rest st) = length us)%nat.
+Proof. exact de_evals_count. Qed.
+Print Assumptions evals_count_de.
+
+Theorem mirror_de : forall population_size max_iter conv cb interval us,
+  de_run false population_size max_iter conv cb interval us
+  = option_map neg_res (de_run true population_size max_iter conv cb interval (map Z.opp us)).
+Proof. exact de_mirror. Qed.
+Print Assumptions mirror_de.
+
+(* ------------------------------------------------------------------ particle_swarm *)
+Theorem best_is_min_pso : forall minimize n_particles max_iter cb interval us r,
+  pso_run minimize n_particles max_iter cb interval us = Some r ->
+  forall k v, (k < r_evals r)%nat -> nth_error us k = Some v -> if minimize then r_obj r <= v else v <= r_obj r.
+Proof. exact pso_best_is_min. Qed.
+Print Assumptions best_is_min_pso.
+
+Theorem best_is_f_pso : forall minimize n_particles max_iter cb interval us r,
+  pso_run minimize n_particles max_iter cb interval us = Some r ->
+  nth_error us (r_sol r) = Some (r_obj r).
+Proof. exact pso_best_is_f. Qed.
+Print Assumptions best_is_f_pso.
+
+Theorem evals_count_pso : forall minimize n_particles max_iter cb interval us r st,
+  pso_run_st minimize n_particles max_iter cb interval us = Some (r, st) ->
+  r_evals r = evals st /\ (r_evals r + length (rest st) = length us)%nat.
+Proof. exact pso_evals_count. Qed.
+Print Assumptions evals_count_pso.
+
+Theorem mirror_pso : forall n_particles max_iter cb interval us,
+  pso_run false n_particles max_iter cb interval us
+  = option_map neg_res (pso_run true n_particles max_iter cb interval (map Z.opp us)).
+Proof. exact pso_mirror. Qed.
+Print Assumptions mirror_pso.
+
+(* ------------------------------------------------------------------ nelder_mead (first argument true = the code
+   after `fix: nelder_mead early stop returns the best vertex`; false = the pinned code) *)
+Theorem best_is_min_nelder_mead : forall minimize n max_iter tolc cb interval us r,
+  nm_run true minimize n max_iter tolc cb interval us = Some r ->
+  forall k v, (k < r_evals r)%nat -> nth_error us k = Some v -> if minimize then r_obj r <= v else v <= r_obj r.
+Proof. exact nm_best_is_min. Qed.
+Print Assumptions best_is_min_nelder_mead.
+
+Theorem best_is_f_nelder_mead : forall minimize n max_iter tolc cb interval us r,
+  nm_run true minimize n max_iter tolc cb interval us = Some r ->
+  nth_error us (r_sol r) = Some (r_obj r).
+Proof. exact nm_best_is_f. Qed.
+Print Assumptions best_is_f_nelder_mead.
+
+Theorem evals_count_nelder_mead : forall minimize n max_iter tolc cb interval us r st,
+  nm_run_st true minimize n max_iter tolc cb interval us = Some (r, st) ->
+  r_evals r = evals st /\ (r_evals r + length (rest st) = length us)%nat.
+Proof. exact nm_evals_count. Qed.
+Print Assumptions evals_count_nelder_mead.
+
+Theorem mirror_nelder_mead : forall early_best n max_iter tolc cb interval us,
+  nm_run early_best false n max_iter tolc cb interval us
+  = option_map neg_res (nm_run early_best true n max_iter tolc cb interval (map Z.opp us)).
+Proof. exact nm_mirror. Qed.
+Print Assumptions mirror_nelder_mead.
+
+(* the pinned early return (simplex[0] before re-sorting) violated best_is_min:
+   nelder_mead(lambda x: 100*x[0], [1.0], on_progress=lambda p: True, progress_interval=1) *)
+Theorem nelder_mead_pinned_refuted :
+  exists minimize n max_iter tolc cb interval us r,
+    nm_run false minimize n max_iter tolc cb interval us = Some r /\
+    ~ (forall k v, (k < r_evals r)%nat -> nth_error us k = Some v -> if minimize then r_obj r <= v else v <= r_obj r).
+Proof. exact nm_pinned_refuted. Qed.
+Print Assumptions nelder_mead_pinned_refuted.
+
+(* ------------------------------------------------------------------ bayesian_opt *)
+Theorem best_is_min_bayesian : forall minimize n_initial max_iter cb interval us r,
+  bo_run minimize n_initial max_iter cb interval us = Some r ->
+  forall k v, (k < r_evals r)%nat -> nth_error us k = Some v -> if minimize then r_obj r <= v else v <= r_obj r.
+Proof. exact bo_best_is_min. Qed.
+Print Assumptions best_is_min_bayesian.
+
+Theorem best_is_f_bayesian : forall minimize n_initial max_iter cb interval us r,
+  bo_run minimize n_initial max_iter cb interval us = Some r ->
+  nth_error us (r_sol r) = Some (r_obj r).
+Proof. exact bo_best_is_f. Qed.
+Print Assumptions best_is_f_bayesian.
+
+Theorem evals_count_bayesian : forall minimize n_initial max_iter cb interval us r st,
+  bo_run_st minimize n_initial max_iter cb interval us = Some (r, st) ->
+  r_evals r = evals st /\ (r_evals r + length (rest st) = length us)%nat.
+Proof. exact bo_evals_count. Qed.
+Print Assumptions evals_count_bayesian.
+
+Theorem mirror_bayesian : forall n_initial max_iter cb interval us,
+  bo_run false n_initial max_iter cb interval us
+  = option_map neg_res (bo_run true n_initial max_iter cb interval (map Z.opp us)).
+Proof. exact bo_mirror. Qed.
+Print Assumptions mirror_bayesian.
+
+(* ------------------------------------------------------------------ powell, bfgs, lbfgs *)
+Theorem objective_is_f_powell : forall n max_iter lens conv moved cb interval us r,
+  powell_run n max_iter lens conv moved cb interval us = Some r ->
+  nth_error us (r_sol r) = Some (r_obj r).
+Proof. exact powell_objective_is_f. Qed.
+Print Assumptions objective_is_f_powell.
+
+Theorem objective_is_f_bfgs : forall max_iter conv bt cb interval us r,
+  bfgs_run max_iter conv bt cb interval us = Some r ->
+  nth_error us (r_sol r) = Some (r_obj r).
+Proof. exact bfgs_objective_is_f. Qed.
+Print Assumptions objective_is_f_bfgs.
+
+Theorem objective_is_f_lbfgs : forall max_iter conv bt cb interval us r,
+  lbfgs_run max_iter conv bt cb interval us = Some r ->
+  nth_error us (r_sol r) = Some (r_obj r).
+Proof. exact lbfgs_objective_is_f. Qed.
+Print Assumptions objective_is_f_lbfgs.
+
+(* ------------------------------------------------------------------ in_bounds (DE, PSO, bayesian_opt) *)
+Theorem in_bounds : forall bounds x,
+  valid_bounds bounds -> bounded_point bounds x -> in_box bounds x.
+Proof. exact bounded_point_in_box. Qed.
+Print Assumptions in_bounds.
+
+(* ------------------------------------------------------------------ the machines satisfy the specification whose
+   boolean checker (B_Spec.spec1_check, sound by spec1_check_sound) judges the implementation's outputs:
+   a complete run (all recorded objective calls consumed) returns f(solution), the best of all calls, and
+   evaluations = number of calls *)
+Theorem spec_de : forall minimize population_size max_iter conv cb interval us r st,
+  de_run_st minimize population_size max_iter conv cb interval us = Some (r, st) -> rest st = [] ->
+  Spec1 minimize us [r_sol r] (r_obj r) (r_evals r).
+Proof. exact de_spec. Qed.
+Print Assumptions spec_de.
+Theorem spec_pso : forall minimize n_particles max_iter cb interval us r st,
+  pso_run_st minimize n_particles max_iter cb interval us = Some (r, st) -> rest st = [] ->
+  Spec1 minimize us [r_sol r] (r_obj r) (r_evals r).
+Proof. exact pso_spec. Qed.
+Print Assumptions spec_pso.
+Theorem spec_nelder_mead : forall minimize n max_iter tolc cb interval us r st,
+  nm_run_st true minimize n max_iter tolc cb interval us = Some (r, st) -> rest st = [] ->
+  Spec1 minimize us [r_sol r] (r_obj r) (r_evals r).
+Proof. exact nm_spec. Qed.
+Print Assumptions spec_nelder_mead.
+Theorem spec_bayesian : forall minimize n_initial max_iter cb interval us r st,
+  bo_run_st minimize n_initial max_iter cb interval us = Some (r, st) -> rest st = [] ->
+  Spec1 minimize us [r_sol r] (r_obj r) (r_evals r).
+Proof. exact bo_spec. Qed.
+Print Assumptions spec_bayesian.
+Theorem spec_check_sound : forall minimize us ids obj evaluations,
+  spec1_check minimize us ids obj evaluations = true -> Spec1 minimize us ids obj evaluations.
+Proof. exact spec1_check_sound. Qed.
+Print Assumptions spec_check_sound.
+
+(* ------------------------------------------------------------------ non-vacuity *)
+(* DE: 4 slots, 2 generations, the best (value 1, call 7) is followed by worse accepted trials *)
+Example de_example :
+  de_run true 4 2 (fun _ => false) None 0 [5; 3; 4; 6;  7; 2; 9; 1;  0; 8; 8; 1]
+  = Some (mkR 8 0 2 12 MAX_ITER).
+Proof. vm_compute. reflexivity. Qed.
+Example de_example_max :
+  de_run false 4 2 (fun _ => false) None 0 [5; 3; 4; 6;  7; 2; 9; 1;  0; 8; 8; 1]
+  = Some (mkR 6 9 2 12 MAX_ITER).
+Proof. vm_compute. reflexivity. Qed.
+Example pso_example :
+  pso_run true 3 2 (Some (fun it => (2 <=? it)%nat)) 1 [5; 3; 4;  7; 1; 9;  2; 8; 0]
+  = Some (mkR 8 0 2 9 FEASIBLE).
+Proof. vm_compute. reflexivity. Qed.
+(* Nelder-Mead: expansion produces a new minimum in the last slot, then the callback stops the run:
+   the repaired code returns it, the pinned code returned the stale simplex[0] *)
+Example nelder_mead_example :
+  nm_run true true 1 5 0 (Some (fun _ => true)) 1 [100; 105; 95; 90] = Some (mkR 3 90 1 4 FEASIBLE).
+Proof. vm_compute. reflexivity. Qed.
+Example nelder_mead_pinned_example :
+  nm_run false true 1 5 0 (Some (fun _ => true)) 1 [100; 105; 95; 90] = Some (mkR 0 100 1 4 FEASIBLE).
+Proof. vm_compute. reflexivity. Qed.
+Example nelder_mead_shrink_example :   (* inside contraction fails -> shrink re-evaluates vertices 1..n *)
+  nm_run true true 2 2 0 None 0 [1; 5; 9;  12; 10;  7; 8;  3] = Some (mkR 0 1 2 8 MAX_ITER).
+Proof. vm_compute. reflexivity. Qed.
+Example bayesian_example :
+  bo_run false 2 5 None 0 [3; 8; 2; 9; 4] = Some (mkR 3 9 5 5 MAX_ITER).
+Proof. vm_compute. reflexivity. Qed.
+Example powell_example :   (* 1 dimension, 2 iterations, line searches of 3, 2 and 4 calls *)
+  powell_run 1 2 (fun j => nth j [3; 2; 4]%nat 0%nat) (fun it => (it =? 1)%nat) (fun it => (it =? 0)%nat) None 0
+             [9;  7; 8; 6;  5; 4;  3; 2; 1; 2]
+  = Some (mkR 9 2 1 10 OPTIMAL).
+Proof. vm_compute. reflexivity. Qed.
+Example bfgs_example :     (* 2 iterations, line searches with 2 and 1 trial points, fresh evaluation at the end *)
+  bfgs_run 2 (fun _ => false) (fun j => nth j [2; 1]%nat 0%nat) None 0 [9; 8; 7; 7;  7; 5; 5;  5]
+  = Some (mkR 7 5 2 8 MAX_ITER).
+Proof. vm_compute. reflexivity. Qed.
+Example in_bounds_example :
+  valid_boundsb [(-3 # 1, 3 # 1); (0 # 1, 1 # 2)]%Q = true /\
+  in_boxb [(-3 # 1, 3 # 1); (0 # 1, 1 # 2)]%Q
+          (mix [true; false] (clip [(-3 # 1, 3 # 1); (0 # 1, 1 # 2)] [7 # 2; -1 # 1]) [1 # 1; 1 # 4])%Q = true.
+Proof. vm_compute. split; reflexivity. Qed.
